@@ -189,3 +189,19 @@ CHECKS["C02"] = {
     "outside": ["Go's path builder itself (contract stub)", "non-PEM text that encoding/pem skips before or between blocks"],
     "assumptions": PKI_ASSUME,
 }
+
+CHECKS["C03"] = {
+    "groups": ["pki", "c04", "c07", "c03"],
+    "quick": {"match": "^H03", "budget": 900},
+    "thorough": {"match": "^[HT]03", "budget": 3000, "query_timeout_ms": 120000},
+    "replay": "model",
+    "what": "verify.TdxQuote with GetCollateral (obtainCollateral, getTcbInfo, getQeIdentity, headerToIssuerChain, bodyToRawMessage, verifyCollateral, "
+            "verifyTCBinfo, verifyQeIdentity, verifyResponse, validateCertificate) against a scripted getter whose responses are symbolic: issuer "
+            "chain certificates with symbolic attributes, a body that decodes (whole) to one symbolic document and whose exact-key member decodes "
+            "to another, independent, symbolic document; asserted: accept implies root self-signed 'Intel SGX Root CA', signer 'Intel SGX TCB "
+            "Signing' issued by it, signer path-valid to the configured roots at its own time, CertSig(signer key, raw member, signature), "
+            "TDX/3 resp. TD_QE/2 and non-empty levels of the SIGNED member, and the C04 / C07 reference verdicts evaluated on the SIGNED member",
+    "bounds": {"tcb_levels": "0..1 quick, 2 thorough", "module_identities": "0..1", "qe_levels": "1", "header_shapes": "missing / no value / two values / empty / undecodable / nil map"},
+    "outside": ["JSON grammar; what exactly encoding/json accepts as a duplicate key (no relation between decoding the body and decoding its member is assumed)"],
+    "assumptions": PKI_ASSUME + ["encoding/json.Unmarshal is a deterministic function of (document, target type)", "url.QueryUnescape / hex.DecodeString deterministic functions of the string"],
+}
